@@ -82,12 +82,13 @@ def gen_block(rng):
                 val = body[:127] + b"\0"
             elif v == "cont":
                 val = body
-                extra = bytes(rng.randrange(1, 256) for _ in range(rng.randrange(1, 40)))
+                # continuation lengths around every plausible chunk size, not just short ones
+                extra = bytes(rng.randrange(1, 256) for _ in range(rng.choice([rng.randrange(1, 40), 127, 128, 129, 255, 256, 257, 300, 1000, rng.randrange(40, 1200)])))
             elif v == "cont0":
                 val = body  # the very next byte is a NUL
             else:
                 val = body
-                extra = bytes(rng.randrange(1, 256) for _ in range(rng.randrange(0, 40)))
+                extra = bytes(rng.randrange(1, 256) for _ in range(rng.choice([rng.randrange(0, 40), 128, 256, 257, 700])))
             meta["ua"] = v
             recs.append((idx, typ, val, extra, v))
             continue
